@@ -174,3 +174,12 @@ CHECKS['C11'] = dict(level='other',
         'intervals).  Not decided: that libm round/floor/... themselves return the nearest integer, roundEven\'s tie arithmetic, numeric accuracy of smoothstep/mix, gtx/compatibility and gtx/common helpers.',
    technique='abstract interpretation of instantiated LLVM IR into terms; comparison with definitions over the order x NaN domain and the float-class domain; literal check of constants against independently computed correctly rounded values; interval evaluation')
 NOT_APPLICABLE.pop('C11', None)
+
+CHECKS['C13'] = dict(level='proof',
+   text='slerp, mix, shortMix (float, double): on every path of the decision tree (negation for the shorter arc, linear fallback above 1 - epsilon) the end points a = 0 / a = 1 give x / +-y; on the spherical arm '
+        '|result|^2 = 1, x . result = cos(a theta) and z . result = cos((1 - a) theta) (position on the arc at the fraction a of the angle, any a), the angle is acos(|x.y|) with z = -y exactly where x.y < 0, acos and the '
+        'division by sin(theta) are only reached with cos(theta) < 1 - epsilon; slerp(x,y,a) = sign(x.y) slerp(y,x,1-a); lerp is x(1-a) + y a exactly; fastMix returns the end points for unit operands.',
+   note='Identities modulo |x| = |y| = 1, the angle-difference formulas, cos(acos c) = c, sin(acos c) = sqrt(1 - c^2). Not decided: unit length on the linear-fallback arm (within epsilon only), NaN freedom for inputs that '
+        'are not exactly unit, the spin-count variant (integer multiples of the rounded pi), squad / intermediate, dual-quaternion lerp.',
+   technique='abstract interpretation of instantiated LLVM IR into polynomial normal forms with trigonometric atoms; decision-tree exploration; reduction modulo unit-norm and Pythagorean relations; rational witnesses on the unit spheres for refutations')
+NOT_APPLICABLE.pop('C13', None)
